@@ -17,6 +17,9 @@ import (
 
 const c19Valid = "\tORG 0x7c00\nstart:\n\tMOV AX,0x1234\n\tJMP start\n\tDB \"ok\",0\n"
 const c19Bad = "\tMOV AX,1\n\tMOV AX,,\n"
+const c19BadEOL = "\tMOV AX,1\n\tMOV BX,\n\tHLT\n"    // the parse error is AT the end of a line
+const c19BadStr = "\tMOV AX,1\n\tDB \"hello\n\tHLT\n" // unterminated string
+const c19Obj = "[FORMAT \"WCOFF\"]\n[INSTRSET \"i486p\"]\n[BITS 32]\n[FILE \"obj.nas\"]\n\tGLOBAL _f1\n[SECTION .text]\n_f1:\n\tMOV EAX,1\n\tRET\n"
 
 var c19Old = bytes.Repeat([]byte("OLD!"), 64)
 var lineColRe = regexp.MustCompile(`\b\d+:\d+\b`)
@@ -42,8 +45,8 @@ func c19Model(argv []string) c19Expect {
 	src, dst := pos[0], pos[1]
 	e := c19Expect{dst: dst}
 	switch src {
-	case "valid.nas", "empty.nas":
-	case "bad.nas":
+	case "valid.nas", "empty.nas", "obj.nas":
+	case "bad.nas", "bad_eol.nas", "bad_str.nas":
 		e.exit, e.lineCol, e.wantFile, e.why = "nonzero", true, "intact_or_empty_or_absent", "parse error: non-zero exit with line:col"
 		return e
 	case "missing.nas", "nodir/out.bin", "new.bin":
@@ -85,18 +88,25 @@ func c19Setup(dir string) {
 	os.WriteFile(filepath.Join(dir, "valid.nas"), []byte(c19Valid), 0o644)
 	os.WriteFile(filepath.Join(dir, "empty.nas"), nil, 0o644)
 	os.WriteFile(filepath.Join(dir, "bad.nas"), []byte(c19Bad), 0o644)
+	os.WriteFile(filepath.Join(dir, "bad_eol.nas"), []byte(c19BadEOL), 0o644)
+	os.WriteFile(filepath.Join(dir, "bad_str.nas"), []byte(c19BadStr), 0o644)
+	os.WriteFile(filepath.Join(dir, "obj.nas"), []byte(c19Obj), 0o644)
 	os.WriteFile(filepath.Join(dir, "existing.bin"), c19Old, 0o644)
 }
 
 func c19Custom(r *core.Run, tier string) {
 	t0 := time.Now()
 	p := r.Cfg.Pool
-	tokens := []string{"valid.nas", "new.bin", "existing.bin", "missing.nas", "bad.nas", "empty.nas", "sub", "nodir/out.bin", "/dev/full", "-v", "--help"}
+	tokens := []string{"valid.nas", "new.bin", "existing.bin", "missing.nas", "bad.nas", "empty.nas", "sub", "nodir/out.bin", "/dev/full", "-v", "--help", "obj.nas", "bad_eol.nas", "bad_str.nas"}
 	maxLen := 3
 	if tier == "thorough" {
 		maxLen = 4
 	}
 	validBytes := p.Exec(c19Valid).Out
+	objBytes := p.Exec(c19Obj).Out
+	if len(objBytes) == 0 {
+		core.Fatalf("C19: the reference object program does not assemble through the API")
+	}
 	if len(validBytes) == 0 {
 		core.Fatalf("C19: the reference program does not assemble through the API")
 	}
@@ -169,12 +179,15 @@ func c19Custom(r *core.Run, tier string) {
 				}
 				if exp.dst != "" && !strings.HasPrefix(exp.dst, "/dev/") {
 					b, err := os.ReadFile(filepath.Join(dir, exp.dst))
-					orig := map[string][]byte{"existing.bin": c19Old, "valid.nas": []byte(c19Valid), "bad.nas": []byte(c19Bad), "empty.nas": {}}[exp.dst]
+					orig := map[string][]byte{"existing.bin": c19Old, "valid.nas": []byte(c19Valid), "bad.nas": []byte(c19Bad), "empty.nas": {},
+						"obj.nas": []byte(c19Obj), "bad_eol.nas": []byte(c19BadEOL), "bad_str.nas": []byte(c19BadStr)}[exp.dst]
 					switch exp.wantFile {
 					case "bytes":
 						want := validBytes
 						if exp.bytesOf == "empty" {
 							want = nil
+						} else if exp.bytesOf == "obj" {
+							want = objBytes
 						}
 						if err != nil || !bytes.Equal(b, want) {
 							fail("output_file", "differs_from_api_bytes", fmt.Sprintf("file %x (err %v), assembled bytes %x", b, err, want))
@@ -206,7 +219,7 @@ func c19Custom(r *core.Run, tier string) {
 	wg.Wait()
 	r.AddSample(map[string]any{"argv": []string{"valid.nas", "existing.bin"}, "expected": "exit 0, existing.bin == assembled bytes"})
 	r.AddSample(map[string]any{"argv": []string{"bad.nas", "existing.bin"}, "expected": "non-zero exit, line:col message, existing.bin intact or empty"})
-	r.AddCustom("argv_vectors", fmt.Sprintf("ALL argument vectors of length 0..%d over an 11-token alphabet of path situations and flags (valid/missing/unparsable/empty source, directory, new/existing output, output in a missing directory, /dev/full, -v, --help), each spawned as the real command in a freshly prepared directory; oracle: model of the command-line contract (exit 16/17/0/non-zero, position in the parse-error message, output file == API bytes on success, no partial image after a failure); non-trivial = successful assemblies", maxLen),
+	r.AddCustom("argv_vectors", fmt.Sprintf("ALL argument vectors of length 0..%d over a 14-token alphabet of path situations and flags (valid/missing/unparsable/empty source, directory, new/existing output, output in a missing directory, /dev/full, -v, --help), each spawned as the real command in a freshly prepared directory; oracle: model of the command-line contract (exit 16/17/0/non-zero, position in the parse-error message, output file == API bytes on success, no partial image after a failure); non-trivial = successful assemblies", maxLen),
 		map[string]any{"tokens": tokens, "max_len": maxLen}, int64(len(argvs))+1, int64(len(argvs)), spawned, int64(outcomes["exit0"]), len(outcomes), true, time.Since(t0).Seconds())
 
 	// CLI vs in-process API on the program pool
